@@ -22,6 +22,6 @@ a=$(VERIF_WORKERS=16 ./check selftest-determinism 2>&1 | grep ' log=' | sort | m
 b=$(VERIF_WORKERS=7 ./check selftest-determinism 2>&1 | grep ' log=' | sort | md5sum)
 c=$(VERIF_WORKERS=16 ./check selftest-determinism 2>&1 | grep ' log=' | sort | md5sum)
 if [ "$a" = "$b" ] && [ "$a" = "$c" ]; then echo "determinism SAME (16 workers twice, 7 workers once)"; else echo "determinism DIFFERENT"; fi
-./check selftest-primitives 2>&1 | grep -c "primitive selftest ok"
+./check selftest-primitives 2>&1 | grep -c "primitive selftest ok"   # 9 expected
 (cd /repo && cargo test --workspace --no-fail-fast --offline 2>&1 | grep -E "^test result" | head -3)
 rm -rf "$OUT"
